@@ -66,6 +66,8 @@ def store_case(draw, tier="quick"):
     flt = st.one_of(st.none(), st.just([]), st.lists(st.sampled_from(pool), min_size=1, max_size=3, unique=True))
     return {"table": tbl, "contexts": ctxs, "write_data": draw(st.booleans()), "write_axes": draw(st.booleans()),
             "include": draw(flt), "exclude": draw(flt), "aggregate": draw(st.sampled_from([None, None, "rollup", "qc agg", "1agg"])),
+            "second": draw(st.one_of(st.none(), st.fixed_dictionaries({"write_data": st.booleans(), "write_axes": st.booleans(),
+                                                                     "include": flt, "exclude": flt}))),
             "style": draw(st.sampled_from(["iso", "datetime"]))}
 
 
@@ -87,7 +89,7 @@ def resolve(items):
     return out
 
 
-def check_store(case, rec):
+def check_store(case, rec, _store=None):
     from ioos_qc.config import Config
     from ioos_qc.stores import PandasStore
     from ioos_qc.streams import PandasStream
@@ -96,14 +98,17 @@ def check_store(case, rec):
     inc, exc = resolve(case["include"]), resolve(case["exclude"])
     cfg = sg.config_obj(case["contexts"], case["style"])
     site = "PandasStore.save"
-    with warnings.catch_warnings():
-        warnings.simplefilter("ignore")
-        try:
-            store = PandasStore(PandasStream(sg.make_df(tbl)).run(Config(cfg)))
-            collected = list(store.collected_results)
-        except Exception as e:
-            rec.fail("PandasStore()", f"raised {type(e).__name__}: {str(e)[:200]}", raised=True, exc=type(e).__name__)
-            return
+    if _store is not None:
+        store, collected = _store  # a further save() on the same store: what was written before must not linger
+    else:
+        with warnings.catch_warnings():
+            warnings.simplefilter("ignore")
+            try:
+                store = PandasStore(PandasStream(sg.make_df(tbl)).run(Config(cfg)))
+                collected = list(store.collected_results)
+            except Exception as e:
+                rec.fail("PandasStore()", f"raised {type(e).__name__}: {str(e)[:200]}", raised=True, exc=type(e).__name__)
+                return
     # ---- model of the expected columns from the collected results themselves ------------------------
     def passes(cr):
         keep = inc is None or (cr.function in inc or cr.stream_id in inc or cr.test in inc)
@@ -124,13 +129,14 @@ def check_store(case, rec):
     labels = [lab for lab, on in (("filter_keeps_and_drops", kept and dropped), ("multi_context", nctx >= 2),
                                   ("needs_sanitising", needs_sanitising), ("name_collision", collision),
                                   ("include", inc is not None), ("exclude", exc is not None), ("aggregate", case["aggregate"]),
-                                  ("no_results", not collected)) if on] + [f"wd={int(case['write_data'])},wa={int(case['write_axes'])}"]
+                                  ("no_results", not collected), ("second_save_on_same_store", _store is not None)) if on] + \
+        [f"wd={int(case['write_data'])},wa={int(case['write_axes'])}"]
     rec.note(bool((kept and dropped) or nctx >= 2 or needs_sanitising), labels)
     info = {"collision": collision, "include_given": inc is not None, "exclude_given": exc is not None}
     with warnings.catch_warnings():
         warnings.simplefilter("ignore")
         try:
-            if case["aggregate"] and collected:
+            if case["aggregate"] and collected and _store is None:
                 store.compute_aggregate(name=case["aggregate"])
             df = store.save(write_data=case["write_data"], write_axes=case["write_axes"], include=inc, exclude=exc)
         except Exception as e:
@@ -232,7 +238,9 @@ def check_store(case, rec):
             rec.fail(site, f"write_data=True but data column {sid!r} is missing", got=cols, **info)
     extra = [c for c in cols if c not in used]
     if extra:
-        rec.fail(site, f"unexpected columns {extra}", got=cols, extra_columns=True, **info)
+        rec.fail(site, f"unexpected columns {extra}", got=cols, extra_columns=True, second_save=_store is not None, **info)
+    if _store is None and case.get("second"):
+        check_store({**case, **case["second"], "second": None}, rec, _store=(store, collected))
 
 
 # ---- cf_safe_name ---------------------------------------------------------------------------------
